@@ -30,8 +30,8 @@ def tsan_reports(err):
         if not m:
             continue
         frames = []
-        for fm in re.finditer(r"#\d+ (\S+) (/\S+?):(\d+)", blk):
-            if build.REPO + "/" in fm.group(2):
+        for fm in re.finditer(r"#\d+ (\S+) (\S+?):(\d+)", blk):
+            if driver._in_repo(fm.group(2)):
                 f = "%s@%s" % (fm.group(1), os.path.basename(fm.group(2)))
                 if f not in frames:
                     frames.append(f)
@@ -122,10 +122,8 @@ def main(tier, seed):
             else:
                 foreign += 1
     rep.counters["foreign_reports"] = foreign
-    if rep.counters["tsan.runs"] == 0 or rep.counters["helgrind.runs"] == 0:
-        raise core.Inconclusive("a detector produced no run")
-    if overlaps == 0:
-        raise core.Inconclusive("no overlapping library calls were observed: the workload was not concurrent")
+    rep.require(not (rep.counters["tsan.runs"] == 0 or rep.counters["helgrind.runs"] == 0), "a detector produced no run")
+    rep.require(not (overlaps == 0), "no overlapping library calls were observed: the workload was not concurrent")
     rep.samples += runs[:6] + [{"pool": [core.b2s(a) for a in POOL]}]
     rep.distinct_count = 0
     rep.assumptions += ["happens-before race detection covers the partial orders of the executed runs, not all interleavings",
